@@ -166,14 +166,90 @@ _cases0, _execute0, _component0 = cases, execute, component_of
 def cases(tier, seed):  # noqa: F811
     yield from _cases0(tier, seed)
     yield f"{PID}|spelling", {"kind": "spelling", "tier": tier}
+    yield f"{PID}|factories", {"kind": "factories", "tier": tier}
 
 
 def execute(p, res):  # noqa: F811
     if p.get("kind") == "spelling":
         from kmc import spelling
         return spelling.run(PID, res)
+    if p.get("kind") == "factories":
+        return factories_case(p, res)
     return _execute0(p, res)
 
 
 def component_of(p):  # noqa: F811
-    return "spelling" if p.get("kind") == "spelling" else _component0(p)
+    return "spelling" if p.get("kind") == "spelling" else "factories" if p.get("kind") == "factories" else _component0(p)
+
+
+# ----------------------------------------------------------------------------- named standard codes: the factory is a function of the name
+def _code_of(enc):
+    import torch
+    k = int(enc.code_dimension)
+    y = enc(torch.eye(k, dtype=torch.float32))
+    rows = C.tensor_to_ints(y)
+    return (int(enc.code_length), k, tuple(rows), tuple(sorted(gf2.rref(rows)[0])))     # the last entry is canonical for the CODE (row space)
+
+
+def factories_case(p, res):
+    """for every class offering named standard codes (BCH, Reed-Solomon, cyclic) and every name of length <= 31: the code produced for a name is
+    the same before and after (i) other calls for the same name that override options (a scattered information set, 'right'), (ii) reads of the
+    table returned by get_standard_codes(), (iii) calls for the other names - the advertised (n,k) of C03 is a property of the NAME"""
+    import re
+    import kaira.models.fec.encoders as E
+    for cname in ("BCHCodeEncoder", "ReedSolomonCodeEncoder", "CyclicCodeEncoder"):
+        cls = getattr(E, cname)
+        if hasattr(cls, "get_standard_codes"):
+            names = list(cls.get_standard_codes())
+        else:
+            names = ["Hamming(7,4)", "Simplex(7,3)", "BCH(15,7)", "BCH(15,5)", "Golay(23,12)"]
+        names = [nm for nm in names if int(re.search(r"\((\d+),", nm).group(1)) <= 31]
+        first = {}
+        for nm in names:
+            try:
+                first[nm] = _code_of(cls.create_standard_code(nm))
+            except Exception as e:  # noqa: BLE001
+                res.viol("factories", f"{cname},{nm}", "raises", f"create_standard_code('{nm}'): {type(e).__name__}: {str(e)[:200]}")
+        for nm, (n, k, G0, span0) in first.items():
+            cfg = f"{cname},{nm}"
+            # information sets other than the default: 'right', and scattered ones found greedily in two column orders
+            overrides = [("information_set='right'", {"information_set": "right"})]
+            for oname, order in (("odd-first", [c for c in range(n) if c % 2] + [c for c in range(n) if c % 2 == 0]), ("descending-by-3", sorted(range(n), key=lambda c: (-(c % 3), -c)))):
+                R, chosen = [], []
+                for c in order:
+                    col = sum(((G0[r] >> (n - 1 - c)) & 1) << r for r in range(k))
+                    red = col
+                    for piv, vec in R:
+                        if (red >> piv) & 1:
+                            red ^= vec
+                    if red:
+                        R.append((red.bit_length() - 1, red))
+                        chosen.append(c)
+                    if len(chosen) == k:
+                        break
+                overrides.append((f"information_set={oname}", {"information_set": sorted(chosen)}))
+            for oname, kw in overrides:
+                try:
+                    cls.create_standard_code(nm, **kw)
+                except Exception:  # noqa: BLE001   (an override the class declines is not this clause's business)
+                    res.rejected += 1
+                if hasattr(cls, "get_standard_codes"):
+                    cls.get_standard_codes()          # (reading the table; it is not edited - what a caller does to a returned table is theirs)
+                try:
+                    again = _code_of(cls.create_standard_code(nm))
+                except Exception as e:  # noqa: BLE001
+                    res.viol("factories", cfg, "name-determines-code", f"after create_standard_code('{nm}', {oname}), create_standard_code('{nm}') raises {type(e).__name__}: {str(e)[:160]}")
+                    continue
+                res.ev(k, nontrivial=1, transitions=3)
+                if (again[0], again[1], again[3]) != (n, k, span0):
+                    res.viol("factories", cfg, "name-determines-code", f"after create_standard_code('{nm}', {oname}), create_standard_code('{nm}') produces a different "
+                             f"[{again[0]},{again[1]}] code: first row {gf2.bits(again[2][0], again[0])} instead of {gf2.bits(G0[0], n)}")
+        # (iii) every name again after all the others
+        for nm, want in first.items():
+            try:
+                if _code_of(cls.create_standard_code(nm))[3] != want[3]:
+                    res.viol("factories", f"{cname},{nm}", "name-determines-code", f"create_standard_code('{nm}') after the other names produces a different code than at first")
+            except Exception as e:  # noqa: BLE001
+                res.viol("factories", f"{cname},{nm}", "name-determines-code", f"{type(e).__name__}: {str(e)[:160]}")
+            res.ev(1, nontrivial=1, transitions=1)
+        res.outcome((cname, len(first)))
